@@ -54,7 +54,7 @@ def apalache(ctx, name, invs, timeout=600):
 def design_level(ctx):
     """All spec-only runs, concurrently.  Any failure here is a spec problem => Infra."""
     q = ctx.quick()
-    w = 4 if q else 8
+    w = 4          # per model-checking run; vlib's machine-wide slot limiter makes larger requests wait
     mcs = [("PackedIdsImpl", "PackedIdsImpl_quick.cfg" if q else "PackedIdsImpl_thorough.cfg"),
            ("PackedIdsTextMC", "PackedIdsTextMC_quick.cfg" if q else "PackedIdsTextMC_thorough.cfg"),
            ("PackedIdsLimbsMC", "PackedIdsLimbsMC_quick.cfg" if q else "PackedIdsLimbsMC_thorough.cfg")]
@@ -228,7 +228,7 @@ class _Quiet:
 def layout_pass(ctx, recs):
     if not recs:
         return
-    bad = vlib.tlc_judge(_Quiet(ctx), JUDGE, "PackedIdsJudgeLayout.cfg", recs, shards=max(1, min(8, len(recs) // 12000)))
+    bad = vlib.tlc_judge(_Quiet(ctx), JUDGE, "PackedIdsJudgeLayout.cfg", recs, shards=max(1, min(4, len(recs) // 15000)))
     if bad:
         ctx.divergences += len(bad)
         ctx.extra["layout_divergences"] = ctx.extra.get("layout_divergences", 0) + len(bad)
@@ -246,12 +246,12 @@ def run(ctx):
         vlib.log("C10 generation: %.1fs  (%s)" % (time.time() - t0, ", ".join("%s=%d" % (k, len(v)) for k, v in gen.items())))
         rv, rp, rs = gen_random(ctx)
         families = [("val", gen["val"] + rv), ("pair", gen["pair"] + rp), ("sort", rs), ("text", gen["text"])]
-        judge = lambda rs_: vlib.tlc_judge(ctx, JUDGE, JCFG, rs_, shards=max(1, min(8, len(rs_) // 12000)))
+        judge = lambda rs_: vlib.tlc_judge(ctx, JUDGE, JCFG, rs_, shards=max(1, min(6, len(rs_) // 15000)))
         counts = {name: len(cases) for name, cases in families}
         allc = [c for _, cases in families for c in cases]
         for c in allc:
             ctx.note_case(c, nontrivial=nontrivial(c))
-        CH = 100000
+        CH = 150000
         seen = set()
         for lo in range(0, len(allc), CH):
             chunk = allc[lo:lo + CH]
